@@ -166,6 +166,7 @@ func checkC07(p *Prog, r *Report) {
 	r.rule("R-M", "Mark discipline (Cisco): needed / ready / toDelete decide which device objects are kept and which become deletion candidates; every store into such a mark in package cisco lies at a function+site whose controlling conditions are audited rows of tables/guards.tsv (compared by R07.5).")
 	ruleMarkDiscipline(p, r, "R-M", "C07", "cisco", []string{"cmd.needed", "cmd.ready", "cmd.toDelete"}, 18)
 	ruleListMapsAccumulate(p, r)
+	rulePanosForeignVsys(p, r)
 	r.Trusted = []string{"go/ssa, call graph", "the audited guard sets in tables/guards.tsv are the intended ones (each row carries its reason)"}
 	r.NotDec = "whole-device frame condition for arbitrary unmanaged content; value-dependent marking (which objects an unknown interface reaches); lines the parser does not model"
 }
@@ -256,4 +257,62 @@ func ruleListMapsAccumulate(p *Prog, r *Report) {
 			"a fresh list overwrites what an earlier iteration stored under the same key: the earlier commands are lost (for the interface map: not protected, hence deleted)")
 	}
 	r.floor("R07.6", "stores into name->commands maps inside loops", n, 3)
+}
+
+// rulePanosForeignVsys: R07.7.
+func rulePanosForeignVsys(p *Prog, r *Report) {
+	r.rule("R07.7", "A PAN-OS vsys that exists on the device but not in the target is never diffed: processVsysPairs hands the callback, as second argument, exactly the result of looking the device vsys' name up among the target's vsys (nil when absent, no placeholder substituted), and in GetChanges the call of diffConfig is controlled by that argument being non-nil. (Diffing a foreign vsys against an empty one emits deletes for all its rules and objects.)")
+	fn := p.Fn("panos.processVsysPairs")
+	if fn == nil || len(fn.Params) < 3 {
+		r.fail("R07.7", "anchor|panos.processVsysPairs", "", "not found", "")
+		return
+	}
+	fpar := fn.Params[2]
+	n := 0
+	for _, cs := range callsOf(fn) {
+		if cs.In.Common().Value != ssa.Value(fpar) {
+			continue
+		}
+		args := cs.In.Common().Args
+		if len(args) != 2 || isNilConst(args[0]) {
+			continue // the (nil, v2) call for target-only vsys
+		}
+		n++
+		ok := true
+		why := ""
+		for _, rt := range valueRoots(args[1]) {
+			switch x := rt.(type) {
+			case *ssa.Lookup:
+			case *ssa.Extract:
+				if _, isL := x.Tuple.(*ssa.Lookup); !isL {
+					ok, why = false, descValue(rt, 0)
+				}
+			default:
+				ok, why = false, descValue(rt, 0)
+			}
+		}
+		r.add("R07.7", "foreign-vsys-passed-as-nil|panos.processVsysPairs", p.ipos(cs.In), "the target-side vsys handed to the callback is the plain map lookup (nil when the target has no such vsys)", ok,
+			"a placeholder is substituted for a missing target vsys ("+why+"): the callback cannot tell a foreign vsys from an emptied one and deletes its content")
+	}
+	r.floor("R07.7", "callback calls for device vsys", n, 1)
+	// GetChanges: diffConfig only when v2 != nil
+	found := false
+	for _, g := range allModFuncs(p) {
+		if g.Parent() == nil || shortName(g.Parent()) != "(*panos.State).GetChanges" {
+			continue
+		}
+		for _, cs := range callsTo(g, "panos.diffConfig") {
+			found = true
+			okG := false
+			for _, gd := range guardSet(cs.In) {
+				if gd == "nil != param:*panos.panVsys" {
+					okG = true
+				}
+			}
+			r.add("R07.7", "diff-only-with-target-vsys|"+fnDisplay(g), p.ipos(cs.In), "diffConfig is called only when both vsys exist", okG, "a vsys without counterpart is diffed")
+		}
+	}
+	if !found {
+		r.fail("R07.7", "anchor|diffConfig call in GetChanges", "", "not found", "")
+	}
 }
